@@ -273,6 +273,35 @@ void run_alias(Ctx &c) {
 struct Header { long h0, h1; };
 struct PNode { int v; };
 struct Object : Header, PNode { int extra; };       // the PNode base does not sit at offset 0: Object* -> PNode* adjusts the pointer
+// keys with observable lifetime, values that are trivially destructible: every key is destroyed exactly once, also by the
+// destructor of a map that still holds entries (C16 looks at the registry, C14 at the contents)
+void run_tracked_keys(Ctx &c) {
+	auto &t = c.t;
+	using Map = frg::hash_map<TKey, int, KH, track_alloc>;
+	int mode = t.pick(3);
+	c.op("hash_map<TKey,int> hash-mode %d (tracked keys, trivially destructible values)", mode);
+	c.tag("tracked-keys-trivial-values");
+	Map *m = c.make<Map>(KH{mode}, track_alloc{});
+	std::map<int, int> ref; int nextv = 1; bool removed = false;
+	unsigned nops = 2 + t.pick(40);
+	for(unsigned i = 0; i < nops; i++) {
+		int k = (int)t.pick(30);
+		switch(t.pick(4)) {
+		case 0: case 1: if(!ref.count(k)) { c.op("insert(%d)", k); m->insert(TKey(k), nextv); ref[k] = nextv++; } break;
+		case 2: { c.op("map[%d]", k); (*m)[TKey(k)] = nextv; ref[k] = nextv++; break; }
+		default: if(ref.count(k)) { c.op("remove(%d)", k); auto r = m->remove(TKey(k)); VCHECK(c, "C14", r && *r == ref[k], "remove(%d) returned another value", k); ref.erase(k); removed = true; } break;
+		}
+		VCHECK(c, "C14", m->size() == ref.size(), "size() is %zu, reference %zu", m->size(), ref.size());
+		for(int j = 0; j < 30; j++) { int *g = m->get(TKey(j)); VCHECK(c, "C14", (g != nullptr) == (ref.count(j) != 0) && (!g || *g == ref[j]), "get(%d) disagrees with the reference", j); }
+		VTRACK_POLL(c);
+	}
+	c.op("destroy with %zu entries", ref.size());
+	if(!ref.empty()) c.tag("destroyed-nonempty-tracked-keys");
+	c.destroy(m);
+	VTRACK_END(c);
+	c.nontrivial = c.focus() == "C16" ? (removed || !ref.empty()) : ref.size() >= 3;
+}
+
 void run_optional_values(Ctx &c) {
 	auto &t = c.t;
 	using V = frg::optional<int>;
@@ -386,8 +415,9 @@ void run_keyzoo(Ctx &c) {
 } // namespace
 
 void verif_case(Ctx &c) {
-	unsigned kind = c.t.pick(7);
-	if(kind == 6) { if(c.focus() == "C16") run<Tracked>(c); else run_optional_values(c); }
+	unsigned kind = c.t.pick(8);
+	if(kind == 7) { run_tracked_keys(c); return; }
+	if(kind == 6) { if(c.focus() == "C16") run_tracked_keys(c); else run_optional_values(c); }
 	else if(kind == 5) { if(c.focus() == "C16") run<Tracked>(c); else run_keyzoo(c); }
 	else if(kind == 4) run_alias(c);
 	else if(kind < 2 && c.focus() != "C16") run<int>(c); else run<Tracked>(c);
